@@ -91,6 +91,15 @@ func (a *Act) callFunc(st *State, callee *ssa.Function, closure *Closure, args [
 	tr := a.tr
 	name := callee.String()
 	a.checkNoLockHeldAtCall(st, name, pos)
+	if name == modulePath+"/types.Apply" {
+		gc := tr.comp("ghost:applied", nil, "Int", false)
+		cur := tr.read(tr.heapOf(st, gc))
+		st.heap[gc.name] = tr.heapStore(tr.heapOf(st, gc), nil, tr.define("applied", "Int", app("+", cur, "1")))
+		defer func() {
+			// the callee's frame must not forget the count
+			st.heap[gc.name] = tr.heapStore(tr.heapOf(st, gc), nil, app("+", cur, "1"))
+		}()
+	}
 	// 1. stubs for functions outside the module
 	if stub := tr.eng.stubFor(name); stub != nil {
 		tr.usedStubs[name] = true
@@ -233,6 +242,9 @@ func (a *Act) dynamicCall(st *State, c *ssa.CallCommon, args []Term, pos token.P
 
 // fieldOfValue: "pkg.Type.Field" if v is the value of a struct field.
 func fieldOfValue(v ssa.Value) string {
+	if ct, ok := v.(*ssa.ChangeType); ok {
+		return fieldOfValue(ct.X)
+	}
 	switch v := v.(type) {
 	case *ssa.Field:
 		st := v.X.Type().Underlying().(*types.Struct)
@@ -530,6 +542,7 @@ func (a *Act) recv(st *State, in *ssa.UnOp) {
 }
 
 func (a *Act) send(st *State, in *ssa.Send) {
+	a.noteSend(st, in.Chan, a.val(in.Chan), a.valAs(st, in.X), "true", in.Pos())
 	a.tr.eng.noteChan(a, st, "send", in.Chan, a.valAs(st, in.X), in.Pos())
 }
 
@@ -547,8 +560,10 @@ func (a *Act) selectStmt(st *State, in *ssa.Select) {
 			ct := s.Chan.Type().Underlying().(*types.Chan)
 			v := tr.freshConst("select_recv", a.sortOf(ct.Elem()))
 			tup = append(tup, v)
+			a.noteRecv(st, a.val(s.Chan), v, Eq(idx, IntLit(int64(i))), a.sortOf(ct.Elem()))
 			tr.eng.noteSelectRecv(a, st, in, i, s, idx, v)
 		} else {
+			a.noteSend(st, s.Chan, a.val(s.Chan), a.valAs(st, s.Send), Eq(idx, IntLit(int64(i))), s.Pos)
 			tr.eng.noteChanCond(a, st, "send", s.Chan, a.valAs(st, s.Send), s.Pos, Eq(idx, IntLit(int64(i))))
 		}
 	}
